@@ -26,6 +26,8 @@ Monitor(t) ==
             [ waits |-> \A k \in 1..Len(calls) :
                  LET nd == NodeByName(FP(k), calls[k].node) IN
                    (calls[k].frame = "" /\ \E w \in Names(nd.wait_for) : w \in DOMAIN prov)
+                   \/ (calls[k].frame = "" /\ \E w \in Names(nd.wait_for) : \E j \in NodeIdx(t.prog) :     \* resume path of an interrupt
+                          IsIntr(t.prog.nodes[j]) /\ w \in Names(t.prog.nodes[j].outputs) /\ DataOutputs(t.prog.nodes[j]) \subseteq DOMAIN prov)
                    \/ LET c == calls[k]
                           mine == {j \in Positions(calls, c.frame, c.node) : j < k}
                       IN \A w \in Names(nd.wait_for) :
